@@ -203,6 +203,43 @@ def command_table_attr(idx, A):
     raise AnalysisError("cannot find the command-table store in Program.add_command")
 
 
+def load_time_queries(idx, A):
+    """By-name consultations of the command table (`k in table`, `table[k]`, `table.get(k)`) in what loading reaches
+    (from_source / add_command), other than on the name the new command is stored under.  -> [(fi, node, key source)]"""
+    attr = command_table_attr(idx, A)
+    prog = A.program
+    starts = [prog.methods[m] for m in ("from_source", "add_command") if m in prog.methods]
+    reach, _parent = idx.reachable(starts)
+    out = []
+    n_seen = 0
+    for fi in reach:
+        if fi.module.name.startswith("mpilot.parser") or not hasattr(fi, "node"):
+            continue
+        own_keys = set()
+        for n in own_nodes(fi.node):
+            if isinstance(n, ast.Subscript) and isinstance(n.ctx, ast.Store) and isinstance(n.value, ast.Attribute) and n.value.attr == attr:
+                own_keys.add(K.src(K.expand(fi, n.slice)))
+        for n in own_nodes(fi.node):
+            key = None
+            if isinstance(n, ast.Compare) and len(n.ops) == 1 and isinstance(n.ops[0], (ast.In, ast.NotIn)):
+                c = n.comparators[0]
+                if isinstance(c, ast.Call) and isinstance(c.func, ast.Attribute) and c.func.attr == "keys" and not c.args:
+                    c = c.func.value
+                if isinstance(c, ast.Attribute) and c.attr == attr:
+                    key = n.left
+            elif isinstance(n, ast.Subscript) and isinstance(n.ctx, ast.Load) and isinstance(n.value, ast.Attribute) and n.value.attr == attr and not isinstance(n.slice, ast.Constant):
+                key = n.slice
+            elif isinstance(n, ast.Call) and isinstance(n.func, ast.Attribute) and n.func.attr in ("get", "__contains__", "__getitem__") and isinstance(n.func.value, ast.Attribute) and n.func.value.attr == attr and n.args:
+                key = n.args[0]
+            if key is None:
+                continue
+            n_seen += 1
+            if K.src(K.expand(fi, key)) in own_keys or K.src(key) in own_keys:
+                continue
+            out.append((fi, n, K.src(key)))
+    return out, n_seen
+
+
 def _table_iter(expr, sn, attr):
     """`self.commands.values()` -> 'values'; `.items()` -> 'items'; `self.commands` / `.keys()` -> 'keys'; else None.
     Also looks through list(...), tuple(...), sorted(...), reversed(...)."""
@@ -491,6 +528,10 @@ def list_clean_total(idx, fi):
                 verdict = False
                 line = r.lineno
             why.append(w)
+        elif isinstance(v, ast.Name) and v.id == raw and not rebound:
+            verdict = False
+            line = r.lineno
+            why.append("`%s` hands the raw items back as they are: they are neither passed through the declared value type nor unwrapped (the loader delivers a list inside a list as a ListArgument object, and references as names), so a nested list reaches the command as wrapper objects and the dependency scan no longer sees through it" % K.src(r))
         elif isinstance(v, ast.Name):
             # list built by a loop: `out = []; for item in value: out.append(self.value_type.clean(item...))`
             ok, w = _loop_total(fi, v.id, raw, sn)
